@@ -197,7 +197,7 @@ def definition(kind, col, gid, i):
 def check_grouped(ck, n):
     import _gettsim.aggregation_numpy as A
     gid = ints("g", n)
-    pre = [g.t >= 0 for g in gid.e] + [g.t <= 50 for g in gid.e]
+    pre = [g.t >= 0 for g in gid.e] + [g.t <= 10 ** 9 for g in gid.e]
     cases = [("count", None), ("sum", reals("v", n)), ("sum", ints("v", n)), ("sum", bools("v", n)), ("mean", reals("v", n)),
              ("max", reals("v", n)), ("max", ints("v", n)), ("min", reals("v", n)), ("min", ints("v", n)),
              ("any", bools("v", n)), ("any", ints("v", n)), ("all", bools("v", n)), ("all", ints("v", n)),
@@ -612,7 +612,7 @@ def run(tier):
         check_sum_by_p_id(ck, 4)
         check_join(ck, 4)
     check_precedence(ck, 3 if tier == "quick" else 4)
-    ck.bounds = {"rows": sizes, "group_ids": "symbolic integers 0..50 (unsorted, sparse, non-contiguous)", "values": "unconstrained reals / ints / bools / day-dates",
+    ck.bounds = {"rows": sizes, "group_ids": "symbolic integers 0..10^9 (unsorted, sparse, non-contiguous, survey-style long ids)", "values": "unconstrained reals / ints / bools / day-dates",
                  "p_id labels for sum_by_p_id": "3 concrete label vectors per N (sorted, unsorted sparse); pointers symbolic",
                  "outside": "N>4 rows; numpy_groupies internals (modelled by its contract, conformance-tested)"}
     ck.stubs = ["numpy_groupies.aggregate(group_idx, a, func, fill_value) -> contract model", "numpy.zeros_like/isin/unique/pad/argmax/take/fancy indexing/astype -> models",
